@@ -881,7 +881,7 @@ def _ref_builtin(pred, args):
             return TRef(error="instantiation_error")
         if is_var(a):
             if b[1] == 0:
-                return TRef([])  # SWI fails silently; Yap: the same or an error
+                return TRef([], err_ok=True)  # SWI fails silently; an error would be as good
             return _unify_all(args, [(a, ("i", b[1] - 1))])
         if is_var(b):
             return _unify_all(args, [(b, ("i", a[1] + 1))])
@@ -1005,7 +1005,7 @@ def _ref_builtin(pred, args):
         elif _FLT_RE.match(name):
             num = ("x", float(name))
         elif __import__("re").match(r"^[a-zA-Z_]*$", name) and name not in ("inf", "nan", "infinite", "epsilon", "e"):
-            return TRef([])  # not number syntax: fails silently (SWI manual 4.22)
+            return TRef([], err_ok=True)  # not number syntax: fails silently (SWI manual 4.22); Yap: syntax error
         elif __import__("re").match(r"^[0-9]+[a-df-wyzA-DF-WYZ_][a-zA-Z]*$", name):
             return TRef([], err_ok=True)  # '12abc': SWI fails (syntax error is caught), Yap fails
         else:
